@@ -217,7 +217,7 @@ def run(ch: Checker) -> None:
     exc = ExcTypes(prog, cu.module)
     for p in fpaths(g, limit=100000):
         fd = allfacts(p)
-        if fd.get('host') is False or fd.get('port') is False:
+        if fd.get('self.request.host') is False or fd.get('self.request.port') is False:      # by value: the locals holding them may have any name
             n4 += 1
             made = any(isinstance(c, ast.Call) and attr_chain(c.func) in ('TcpServerConnection', 'self.upstream_conn_pool.acquire') for i, st_ in p.stmts() for c in walk_no_nested(st_))
             if p.exit_kind != 'raise' or made:
@@ -342,15 +342,16 @@ def run(ch: Checker) -> None:
             continue
         sym = Sym(p)
         last = p.stmts()[-1]
-        if not (isinstance(last[1], ast.Return) and isinstance(last[1].value, ast.Tuple) and len(last[1].value.elts) == 4):
+        rv6 = sym.value(last[1].value, last[0]) if isinstance(last[1], ast.Return) and last[1].value is not None else None     # by value: a named result is read through
+        if not (isinstance(rv6, ast.Tuple) and len(rv6.elts) == 4):
             continue
         n6 += 1
-        hv = sym.value(last[1].value.elts[2], last[0])
+        hv = rv6.elts[2]
         # every occurrence of the raw parameter inside the host expression must be under  raw.split(AT, 1)[-1]  (the part after the userinfo)
         ok_nodes = set()
         for x in ast.walk(hv):
             if isinstance(x, ast.Subscript) and isinstance(x.value, ast.Call) and isinstance(x.value.func, ast.Attribute) and x.value.func.attr in ('split', 'rsplit', 'rpartition', 'partition') \
-                    and x.value.args and norm(x.value.args[0]) in ('AT', "b'@'") and norm(x.slice) in ('-1', '2'):
+                    and x.value.args and ce.try_eval(up.module, x.value.args[0]) == b'@' and norm(x.slice) in ('-1', '2'):
                 for y in ast.walk(x):
                     ok_nodes.add(id(y))
         leaks = [x for x in ast.walk(hv) if isinstance(x, ast.Name) and x.id == rawp and id(x) not in ok_nodes]
@@ -358,9 +359,23 @@ def run(ch: Checker) -> None:
             bad = ('the host returned by Url._parse is computed from the whole authority (%s) instead of the part after the userinfo: "user:secret@[::1]:8080" yields a host that '
                    'contains the credentials' % norm(hv)[:90], p.describe(16))
     ch.check(bad is None and n6 > 0, 'C14.6', up, 'host excludes userinfo', 'every returned host derives from the text after "@" (%d return path(s))' % n6, bad[0] if bad else 'no return found', witness=bad[1] if bad else None)
-    usplit = [c for c in walk_no_nested(up.node) if isinstance(c, ast.Call) and isinstance(c.func, ast.Attribute) and c.func.attr in ('split', 'partition')
-              and 'split_at[0]' in norm(c.func.value)]
-    oku = len(usplit) == 1 and ((usplit[0].func.attr == 'split' and len(usplit[0].args) == 2 and norm(usplit[0].args[1]) == '1') or usplit[0].func.attr == 'partition')  # type: ignore[attr-defined]
+    # the userinfo split: a split / partition on ':' whose receiver is, by value, part [0] of an '@'-split of the raw authority (whatever the locals are called)
+    def _is_at_part0(e: ast.AST) -> bool:
+        return isinstance(e, ast.Subscript) and norm(e.slice) == '0' and isinstance(e.value, ast.Call) and isinstance(e.value.func, ast.Attribute) and \
+            e.value.func.attr in ('split', 'rsplit', 'partition', 'rpartition') and bool(e.value.args) and ce.try_eval(up.module, e.value.args[0]) == b'@' and \
+            any(isinstance(y, ast.Name) and y.id == rawp for y in ast.walk(e.value.func.value))
+    usplit_d: Dict[int, ast.Call] = {}
+    for p in fpaths(cfg_of(up, prog, exc_edges=False)):
+        sym = Sym(p)
+        for i, nd, lab in p.executed():
+            if nd.ast is None or nd.kind not in ('stmt', 'test'):
+                continue
+            for c_ in walk_no_nested(nd.ast):
+                if isinstance(c_, ast.Call) and isinstance(c_.func, ast.Attribute) and c_.func.attr in ('split', 'rsplit', 'partition', 'rpartition') and c_.args and \
+                        ce.try_eval(up.module, c_.args[0]) == b':' and _is_at_part0(sym.value(c_.func.value, i)):
+                    usplit_d[id(c_)] = c_
+    usplit = list(usplit_d.values())
+    oku = len(usplit) == 1 and ((usplit[0].func.attr == 'split' and len(usplit[0].args) == 2 and ce.try_eval(up.module, usplit[0].args[1]) == 1) or usplit[0].func.attr == 'partition')  # type: ignore[attr-defined]
     ch.check(oku, 'C14.6', up, 'userinfo split', 'userinfo split on the first colon only', 'userinfo is split with %s: a missing password or a colon inside the password makes a valid target unparseable' % [norm(c) for c in usplit])
     # ---------------- C14.8 (shared)
     ch.import_rules('C02', {'C02.2': 'C14.8'}, 'the path the origin receives is the request target\'s path, unedited')
